@@ -143,14 +143,47 @@ def reach(kind, spec, style, route):
     return x, 'query+set_dt'
 
 
+def st_laws(ka, kb, kc, sa, sb, sc, style):
+    """first C05b law that fails on the implementation (text), or None"""
+    a, b, c = (KINDS[k](dt=mk_dt(sp, style)) for k, sp in ((ka, sa), (kb, sb), (kc, sc)))
+    a0, b0, c0 = KINDS[ka](), KINDS[kb](), KINDS[kc]()
+    pa, pb, pc = dt_pair(sa), dt_pair(sb), dt_pair(sc)
+    if a0.intersects_shape(b0) == b0.intersects_shape(a0) and a.intersects(b) != b.intersects(a):
+        return f'C05_intersects_sym: a.intersects(b) = {a.intersects(b)}, b.intersects(a) = {b.intersects(a)}, the spatial answers agree'
+    if (not a0.contains_shape(b0) or a0.intersects_shape(b0)) and a.contains(b) and not a.intersects(b):
+        return 'C05_contains_imp_intersects: a.contains(b) but not a.intersects(b)'
+    if (pb is not None or pa is None or pc is None) and (not (a0.contains_shape(b0) and b0.contains_shape(c0)) or a0.contains_shape(c0)):
+        if a.contains(b) and b.contains(c) and not a.contains(c):
+            return 'C05_contains_trans: a contains b, b contains c, a does not contain c (the spatial answers are transitive here)'
+    if pa and pb:
+        share, incl = time_sets(pa, pb)
+        if not share and (a.intersects(b) or a.contains(b) or b in a):
+            return 'C05_disjoint_time: the time sets are disjoint but a predicate says yes'
+        # widening the receiver in place keeps a yes
+        yes_c, yes_i = a.contains(b), a.intersects(b)
+        from datetime import timedelta
+        a.buffer_dt(timedelta(hours=1))
+        if (yes_c and not a.contains(b)) or (yes_i and not a.intersects(b)):
+            return 'C05_contains_mono / C05_intersects_mono: widening the receiver time bounds (buffer_dt) turned a yes into a no'
+    if pa:
+        for t in range(-1, 6):
+            d = to_dt(t * H)
+            iv = TimeInterval(d, d)
+            a2 = KINDS[ka](dt=mk_dt(sa, style))
+            if a2.intersects_time(iv) != a2.intersects_time(d) or a2.contains_time(iv) != a2.contains_time(d):
+                return f'C05_intersects_time_instant / C05_contains_time_instant at hour {t}'
+    return None
+
+
 def main():
     ck = Check('C05')
-    ck.build_theories(['theories/Props/C05.vo', 'theories/Corr/ShapeK.vo'])
+    ck.build_theories(['theories/Props/C05.vo', 'theories/Props/C05b.vo', 'theories/Corr/ShapeK.vo'])
     rep = gen_time.main(REPO, os.path.join(ck.rundir, 'TimeGen.v'))
     ck.gen('TimeGen.v', rep, 'TimeGenEq.v')
     rep = gen_gate.main(REPO, os.path.join(ck.rundir, 'GateGen.v'))
     ck.gen('GateGen.v', rep, 'GateGenEq.v')
     ck.props('Props/C05.v')
+    ck.props('Props/C05b.v')     # spatial laws lifted through the time gate by the order laws of TimeInterval (C06b)
     rng = ck.rng
 
     pts = range(5)
@@ -367,7 +400,24 @@ def main():
                 m.set_dt(mk_dt(('i', rng.randrange(5)), next(styles)))
             else:
                 m.buffer_dt(timedelta(hours=rng.choice([1, 2])))
-    ck.cov['evaluations'] = len(cases)
+    # ---- the theorems of Props/C05b.v as exact instances on the implementation: each law is conditional on the spatial
+    # answers the implementation itself gives for the untimed twins, so it can only fail through the time gate
+    n_laws = 0
+    law_bad = []
+    for _ in range(400 if ck.tier == 'quick' else 6000):
+        ka, kb, kc = rng.choice(kinds), rng.choice(kinds), rng.choice(kinds)
+        sa, sb, sc = rng.choice(specs), rng.choice(specs), rng.choice(specs)
+        r = guarded(lambda: st_laws(ka, kb, kc, sa, sb, sc, next(styles)))
+        n_laws += 1
+        ck.count('laws:triples')
+        if r[0] != 'Ok':
+            continue                      # a raising predicate is reported by the gate family above
+        if r[1]:
+            law_bad.append(({'k': 'laws', 'a': ka, 'b': kb, 'c': kc, 'dta': sa, 'dtb': sb, 'dtc': sc}, r[1]))
+    for m, why in law_bad[:3]:
+        ck.violation({'kind': 'property-fails-on-implementation', 'case': m, 'detail': why,
+                      'theorems': 'Props/C05b.v: the named law is a theorem of the gate model for every spatial predicate'})
+    ck.cov['evaluations'] = len(cases) + n_laws
     ck.cov['distinct_nontrivial'] = len(nontriv)
     for i in (0, 200, 900, len(cases) - 1):
         ck.sample(cases[min(i, len(cases) - 1)])
